@@ -5,13 +5,20 @@ returns a scripted sequence of steps (or raises at chosen solves), the real stra
 power-of-two hyper-parameters: every quantity is dyadic, float64 is exact, so the whole observable
 trace (return value, loss, last, reject_count, theta, damping, radius, down, number of solver
 calls) of up to 30 consecutive step() calls must equal the model's trace bit for bit.
-Real residual models (well / ill conditioned, with robust kernels) are checked against the proved
-invariants (returned value = true loss, monotone unless exhausted, restoration, trial bound)."""
+The thresholds run through every legal regime (low < high, low = high, low > high, at / above the quality 1 of an
+exact step); the zero step (quality 0/0, not a number) is part of both scripted universes.  Every trace is also judged
+directly by oracles written from the property text / the strategies' documentation (check_clauses, check_strategy).
+Real residual models (LM and GN; well / ill conditioned; kernels, kernel lists, correctors, target call form, several
+residual tensors, hyper-parameter regimes, starts at an exact stationary point) are checked against the clauses
+(returned value = optimizer.loss = true robust loss, optimizer.last = loss at the parameters given - first call of a fresh
+optimizer included -, monotone unless exhausted, restoration, trial bound) and every call into strategy.update is
+observed (arguments = true losses; documented transition for the step quality recomputed exactly from J, D, R)."""
 import io, contextlib
 from ..common import *
 
 RULE = ('scripted universe: (strategy kind, hyper-parameters, reject, theta0, script of solver steps / raises) -> trace of step() calls; '
         'directed scripts make the first k trials increase the loss for k = 0..reject+1 and raise at solve j for every j; '
+        'thresholds in every legal order, zero steps (quality 0/0) included; real LM / GN models with kernels, correctors, targets, stationary starts; '
         'non-trivial = trace with at least one rejected trial or raise; distinct by full script')
 
 
@@ -28,7 +35,12 @@ def gen_cfg(rng, kind):
         return dict(kind=0, damping=pow2(rng, -20, 3), high=0.5, low=0.125, up=2.0, down=0.5, factor=0.5, smin=2.0 ** -20, smax=2.0 ** 40)
     c = dict(kind=kind, high=rng.choice([0.5, 0.75, 0.25]), low=rng.choice([2.0 ** -10, 0.125, 2.0 ** -4]), up=rng.choice([2.0, 4.0, 8.0]),
              down=rng.choice([0.5, 0.25, 0.125]), factor=rng.choice([0.5, 0.25]), smin=pow2(rng, -24, -2), smax=pow2(rng, 2, 40))
-    if c['low'] >= c['high']:
+    if rng.random() < 0.35:
+        # every LEGAL regime of the thresholds (the constructors only require them to be positive): low >= high, low == high,
+        # thresholds at / above the quality 1 of an exact linear step (so `>` against `>=` and the order of the tests matter)
+        c['high'] = rng.choice([0.5, 1.0, 2.0, 0.25, 4.0])
+        c['low'] = rng.choice([0.125, 1.0, 2.0, 0.5, 4.0, 0.25])
+    elif c['low'] >= c['high']:
         c['low'] = c['high'] / 8
     if kind == 1:
         c['damping'] = pow2(rng, -20, 3)
@@ -48,6 +60,13 @@ def make_strategy(pp, c):
 
 class Raise(Exception):
     pass
+
+
+STATS = {}
+
+
+def stat(k):
+    STATS[k] = STATS.get(k, 0) + 1
 
 
 def run_scripted(pp, torch, c, reject, theta0, script, ncalls, gn=False, quad=None):
@@ -136,8 +155,8 @@ def gen_script(rng, theta0, reject, mode, k=None, raise_at=None, n=200):
 
 def gen_script_quad(rng, c, cc, theta0, reject, n=120):
     """steps on the grid 2^-4 for the residual theta^2 - cc, chosen so that the quality ratio
-    (actual / predicted decrease, exact Fractions) lands in a requested class: V (> high), S (in (low, high]), U (<= low,
-    which includes steps that increase the loss); the walk prefers the patterns U,S,U and S,S that need the middle branch"""
+    (actual / predicted decrease, exact Fractions) lands in a requested class: V (> high), S (not V and > low), U (neither,
+    which includes steps that increase the loss), N (zero step: 0/0); the walk prefers the patterns U,S,U and S,S that need the middle branch"""
     F_ = Fraction
     th = F_(theta0)
     script, classes = [], []
@@ -145,11 +164,11 @@ def gen_script_quad(rng, c, cc, theta0, reject, n=120):
     rc = 0
     for j in range(n):
         if not pattern:
-            pattern = list(rng.choice(['USU', 'VSU', 'SSU', 'UVU', 'USSU', 'V', 'S', 'U', 'UUSUU']))
+            pattern = list(rng.choice(['USU', 'VSU', 'SSU', 'UVU', 'USSU', 'V', 'S', 'U', 'UUSUU', 'N', 'UNU', 'VNS', 'NN']))
         want = pattern.pop(0)
         r0 = th * th - F_(cc)
-        cands = []
-        for k in range(-96, 97):
+        cands = [(F_(0), F_(0))] if want == 'N' else []      # N: the zero step, quality 0/0 (not a number)
+        for k in (range(-96, 97) if want != 'N' else ()):
             d = F_(k, 16)
             if d == 0 or abs(th + d) > 8 or th + d == 0:      # theta = 0 makes J = 0 and the quality ratio x/0
                 continue
@@ -202,8 +221,8 @@ def run(ctx):
         ctx.case(('lm', c['kind'], reject, theta0, tuple(script[:40])), nontrivial=ntriv, branch='lm-kind%d' % c['kind'])
         ctx.traces += 1
         i = len(metas)
-        metas.append(dict(kind='lm', cfg=c, reject=reject, theta0=theta0, script=script[:max(40, 0)], ncalls=ncalls, obs=obs))
         used = max([o[7] for o in obs if o is not None] + [0]) + 2
+        metas.append(dict(kind='lm', cfg=c, reject=reject, theta0=theta0, script=script[:max(40, used)], ncalls=ncalls, obs=obs))
         sl = coq_list(('None' if d is None else 'Some ' + qlit(d)) for d in script[:used])
         # a raising LM call is caught inside step(): the call still returns; None only for GN
         ol = coq_list('(%s, %s, %s, %d%%nat, %s, %s, %s, %d%%nat)' % (qlit(o[0]), qlit(o[1]), qlit(o[2]), o[3], qlit(o[4]), qlit(o[5]), qlit(o[6]), o[7]) for o in obs)
@@ -212,6 +231,10 @@ def run(ctx):
         for o in obs:
             if o is not None and o[0] != o[8]:
                 ctx.violation('lm-loss-attr', 'optimizer.loss differs from the value returned by step()', metas[i])
+        # the property's clauses and the documented strategy transitions, directly on this trace (independent of the model)
+        why = check_clauses(pp, torch, c, reject, theta0, script, ncalls, obs=obs) or check_strategy(pp, torch, c, reject, theta0, None, script, ncalls, obs=obs)
+        if why:
+            ctx.violation('lm-clause:' + why.split(':')[0], why, metas[i])
     # directed: first k trials increase the loss, k = 0..reject+1; reject 0..16 (quick: subset)
     rejects = list(range(0, 17)) if ctx.thorough else [0, 1, 2, 3, 5, 8, 16]
     for kind in (0, 1, 2):
@@ -249,7 +272,7 @@ def run(ctx):
         ncalls = rng.choice([5, 10, 30])
         obs = run_scripted(pp, torch, c, reject, th0, script, ncalls, quad=cc)
         ctx.case(('lmq', kind, reject, th0, cc, tuple(script[:40])), nontrivial=True, branch='lm-nonlinear-kind%d' % kind)
-        ctx.count('nonlinear-universe-requested-' + ('has-USU' if 'USU' in classes else 'no-USU'))
+        ctx.count('nonlinear-universe-requested-' + ('has-USU' if 'USU' in classes else 'no-USU') + ('-has-0/0' if 'N' in classes else ''))
         ctx.traces += 1
         i = len(qmetas)
         qmetas.append(dict(kind='lmq', cfg=c, reject=reject, theta0=th0, quad=cc, script=script, ncalls=ncalls, obs=obs))
@@ -260,6 +283,9 @@ def run(ctx):
         for o in obs:
             if o is not None and o[0] != o[8]:
                 ctx.violation('lm-loss-attr', 'optimizer.loss differs from the value returned by step()', qmetas[i])
+        why = check_strategy(pp, torch, c, reject, th0, cc, script, ncalls, obs=obs)
+        if why:
+            ctx.violation('lm-clause:' + why.split(':')[0], why, qmetas[i])
     ctx.samples.append({k: v for k, v in metas[3].items()})
     hdr = 'From PV Require Import Base.Num Model.LM.\nFrom Coq Require Import List ZArith QArith Bool. Import ListNotations.\n'
     files = [('lm_%03d' % si, hdr + 'Eval vm_compute in lm_bad %s.\n' % coq_list(sh)) for si, sh in enumerate(shard(cases, 60))]
@@ -278,6 +304,9 @@ def run(ctx):
         for o in obs:
             if o is not None and o[0] != o[4]:
                 ctx.violation('gn-loss-attr', 'optimizer.loss differs from the value returned by GN.step()', gmetas[-1])
+        why = check_clauses(pp, torch, None, 0, th0, script, n, gn=True, obs=obs)
+        if why:
+            ctx.violation('gn-clause:' + why.split(':')[0], why, gmetas[-1])
         ol = coq_list(('None' if o is None else 'Some (%s, %s, %s, %d%%nat)' % (qlit(o[0]), qlit(o[1]), qlit(o[2]), o[3])) for o in obs)
         gcases.append('(%d%%nat, %s, %s, %s)' % (t, qlit(th0), coq_list(('None' if d is None else 'Some ' + qlit(d)) for d in script), ol))
     files += [('gn_%03d' % si, hdr + 'Eval vm_compute in gn_bad %s.\n' % coq_list(sh)) for si, sh in enumerate(shard(gcases, 100))]
@@ -308,9 +337,10 @@ def shard(items, n):
     return [items[k:k + n] for k in range(0, len(items), n)]
 
 
-def check_clauses(pp, torch, c, reject, theta0, script, ncalls, gn=False):
+def check_clauses(pp, torch, c, reject, theta0, script, ncalls, gn=False, obs=None):
     """the clauses of C08 evaluated directly on the implementation (scripted universe, exact)"""
-    obs = run_scripted(pp, torch, c, reject, theta0, script, ncalls, gn=gn)
+    if obs is None:
+        obs = run_scripted(pp, torch, c, reject, theta0, script, ncalls, gn=gn)
     th_prev, loss_prev, n_prev = theta0, theta0 * theta0, 0
     damp_prev = None
     for k, o in enumerate(obs):
@@ -347,16 +377,56 @@ def check_clauses(pp, torch, c, reject, theta0, script, ncalls, gn=False):
     return None
 
 
-def check_strategy_quad(pp, torch, c, reject, theta0, cc, script, ncalls):
-    """the strategy clause of C08 in the nonlinear scripted universe, from the documentation of the strategies: after
-    each trial  rho = (last - loss) / (|f|^2 - |f + J d|^2);  Adaptive: damping *= down if rho > high, unchanged if
-    rho > low, else *= up, then clamped to [min, max];  TrustRegion: radius *= up and down-factor reset if rho > high,
-    radius unchanged and down-factor reset if rho > low, else radius *= down-factor and down-factor *= factor, both
-    clamped, damping = 1 / radius.  Exact Fractions; compared after every step() call with what the implementation holds."""
+def doc_quality(act, pred):
+    """the documented step quality rho = (actual decrease) / (predicted decrease).  Where the documented formula divides
+    zero by zero (a zero step, or any step that changes neither the loss nor the linearised loss) rho is not a number and
+    compares false with every threshold; x/0 with x != 0 is left undecided (None): its sign is the sign of a floating zero"""
+    if pred != 0:
+        return act / pred
+    return float('nan') if act == 0 else None
+
+
+def doc_strategy(c, damp, rad, down, rho):
+    """literal transcription of the documented update rules (docstrings of Adaptive / TrustRegion): the tests are
+    `rho > high`, then `rho > low`, in this order, whatever the order of the two thresholds"""
     F_ = Fraction
-    obs = run_scripted(pp, torch, c, reject, theta0, script, ncalls, quad=cc)
-    loss = lambda t: (t * t - F_(cc)) ** 2
     clamp = lambda v: max(F_(c['smin']), min(v, F_(c['smax'])))
+    if c['kind'] == 0:
+        return damp, rad, down
+    if c['kind'] == 1:
+        if rho > F_(c['high']):
+            damp = damp * F_(c['down'])
+        elif rho > F_(c['low']):
+            damp = damp
+        else:
+            damp = damp * F_(c['up'])
+        return clamp(damp), rad, down
+    rad = 1 / damp
+    if rho > F_(c['high']):
+        rad, down = rad * F_(c['up']), F_(c['down'])
+    elif rho > F_(c['low']):
+        rad, down = rad, F_(c['down'])
+    else:
+        rad, down = rad * down, down * F_(c['factor'])
+    rad, down = clamp(rad), clamp(down)
+    return 1 / rad, rad, down
+
+
+def check_strategy(pp, torch, c, reject, theta0, cc, script, ncalls, obs=None):
+    """the strategy clause of C08 in the scripted universes (cc None: residual theta, else theta^2 - cc), from the
+    documentation of the strategies: after each trial  rho = (last - loss) / (|f|^2 - |f + J d|^2);  Adaptive: damping *= down
+    if rho > high, unchanged if rho > low, else *= up, then clamped to [min, max];  TrustRegion: radius *= up and down-factor
+    reset if rho > high, radius unchanged and down-factor reset if rho > low, else radius *= down-factor and down-factor *=
+    factor, both clamped, damping = 1 / radius.  Exact Fractions (rho = 0/0 is not a number: every comparison is false);
+    compared after every step() call with what the implementation holds."""
+    F_ = Fraction
+    if c is None or c['kind'] == 0:
+        return None                    # Constant: check_clauses
+    if obs is None:
+        obs = run_scripted(pp, torch, c, reject, theta0, script, ncalls, quad=cc)
+    res = (lambda t: t) if cc is None else (lambda t: t * t - F_(cc))
+    jac = (lambda t: F_(1)) if cc is None else (lambda t: 2 * t)
+    loss = lambda t: res(t) ** 2
     th = F_(theta0)
     damp = F_(c['damping']) if c['kind'] == 1 else 1 / F_(c['radius'])
     rad = F_(c.get('radius', 0))
@@ -376,25 +446,15 @@ def check_strategy_quad(pp, torch, c, reject, theta0, cc, script, ncalls):
             n += 1
             d = F_(d)
             new = loss(th + d)
-            r0 = th * th - F_(cc)
-            jd = 2 * th * d
+            r0 = res(th)
+            jd = jac(th) * d
             pred = -(jd * (2 * r0 + jd))
-            if pred == 0:
-                return None            # 0/0 or x/0: not part of this oracle
-            rho = (last - new) / pred
-            cls = 'V' if rho > F_(c['high']) else ('S' if rho > F_(c['low']) else 'U')
+            rho = doc_quality(last - new, pred)
+            if rho is None:
+                return None            # x/0: not part of this oracle
+            cls = '0/0 ' if rho != rho else ('V' if rho > F_(c['high']) else ('S' if rho > F_(c['low']) else 'U'))
             hist += cls
-            if c['kind'] == 1:
-                damp = clamp(damp * (F_(c['down']) if cls == 'V' else (1 if cls == 'S' else F_(c['up']))))
-            else:
-                if cls == 'V':
-                    rad, down = rad * F_(c['up']), F_(c['down'])
-                elif cls == 'S':
-                    down = F_(c['down'])
-                else:
-                    rad, down = rad * down, down * F_(c['factor'])
-                rad, down = clamp(rad), clamp(down)
-                damp = 1 / rad
+            damp, rad, down = doc_strategy(c, damp, rad, down, rho)
             if last < new and rc < reject:
                 rc += 1
                 continue
@@ -406,9 +466,11 @@ def check_strategy_quad(pp, torch, c, reject, theta0, cc, script, ncalls):
             return None                # the call made a different number of trials: other clauses report that
         if got != want:
             name = 'Adaptive' if c['kind'] == 1 else 'TrustRegion'
-            return ('strategy: %s(high=%r, low=%r, up=%r, down=%r%s, min=%r, max=%r) after step() call %d (trial qualities so far %s; V very successful, S successful, U unsuccessful): '
+            return ('strategy: %s(high=%r, low=%r, up=%r, down=%r%s, min=%r, max=%r), residual %s, theta0=%r, scripted steps %r: after step() call %d (trial qualities so far %s; '
+                    'V: rho > high, S: else rho > low, U: else, 0/0: zero step, rho is not a number and counts as unsuccessful): '
                     'damping/radius/down-factor are %s, the documented updates give %s') % (
-                name, c['high'], c['low'], c['up'], c['down'], (', factor=%r' % c['factor']) if c['kind'] == 2 else '', c['smin'], c['smax'], k, hist,
+                name, c['high'], c['low'], c['up'], c['down'], (', factor=%r' % c['factor']) if c['kind'] == 2 else '', c['smin'], c['smax'],
+                'theta' if cc is None else 'theta^2 - %r' % cc, theta0, [x for x in script[:n]], k, hist,
                 [float(v) for v in got], [float(v) for v in want])
     return None
 
@@ -417,9 +479,11 @@ def replay(ctx, c):
     pp = import_pypose()
     import torch
     if c.get('kind') == 'lmq':
-        return check_strategy_quad(pp, torch, c['cfg'], c['reject'], c['theta0'], c['quad'], c['script'], c['ncalls'])
+        return check_strategy(pp, torch, c['cfg'], c['reject'], c['theta0'], c['quad'], c['script'], c['ncalls'])
     if c.get('kind') == 'lm':
-        return check_clauses(pp, torch, c['cfg'], c['reject'], c['theta0'], c['script'] + [0.0] * 600, c['ncalls'])
+        sc = c['script'] + [0.0] * 600
+        return (check_clauses(pp, torch, c['cfg'], c['reject'], c['theta0'], sc, c['ncalls'])
+                or check_strategy(pp, torch, c['cfg'], c['reject'], c['theta0'], None, sc, c['ncalls']))
     if c.get('kind') == 'gn':
         return check_clauses(pp, torch, None, 0, c['theta0'], c['script'], c['ncalls'], gn=True)
     if c.get('kind') == 'real':
@@ -428,49 +492,99 @@ def replay(ctx, c):
 
 
 # ------------------------------------------------------------------------------------------------
+def doc_kernel(torch, kind, delta, x):
+    """the robust kernels from their documented formulas (x = squared residual norm)"""
+    if kind == 1:        # Huber: x if sqrt(x) < delta else 2 delta sqrt(x) - delta^2
+        return torch.where(x.sqrt() < delta, x, 2 * delta * x.sqrt() - delta ** 2)
+    if kind == 2:        # Cauchy: delta^2 log(1 + x / delta^2)
+        return delta ** 2 * torch.log1p(x / delta ** 2)
+    if kind == 3:        # PseudoHuber: 2 delta^2 (sqrt(1 + x / delta^2) - 1)
+        return 2 * delta ** 2 * (torch.sqrt(1 + x / delta ** 2) - 1)
+    if kind == 4:        # Scale: delta x
+        return delta * x
+    return x
+
+
 def real_one(pp, torch, c):
-    """a real residual model stepped repeatedly; invariants proved for the model checked directly"""
+    """a real residual model stepped repeatedly by LM or GN (kernels, kernel lists, correctors, target call form, several
+    residual tensors, hyper-parameter regimes, starts at an exact stationary point); the clauses of the property are checked
+    directly after every call, and every call into strategy.update is checked against the documented update rule"""
     torch.manual_seed(c['seed'])
     n, m = c['n'], c['m']
-    A = torch.randn(m, n, dtype=torch.float64)
-    if c['ill']:
-        A = A @ torch.diag(torch.logspace(0, -c['ill'], n, dtype=torch.float64))
-    y = torch.randn(m, dtype=torch.float64)
+    gn = c.get('opt', 'lm') == 'gn'
+    stationary = c.get('stationary', False)
+    use_target = c.get('target', False)
+    if stationary:
+        # small integers: every product and sum below is exact, J^T r = 0 exactly at x = 0, so the trial step is exactly zero
+        A = torch.randint(-3, 4, (m, n)).to(torch.float64)
+        y = torch.randint(1, 5, (m,)).to(torch.float64)
+    else:
+        A = torch.randn(m, n, dtype=torch.float64)
+        if c['ill']:
+            A = A @ torch.diag(torch.logspace(0, -c['ill'], n, dtype=torch.float64))
+        y = torch.randn(m, dtype=torch.float64)
+    k = c.get('outs', 1)
+    rows = 2 * m if stationary else m
+    cuts = [round(j * rows / k) for j in range(k + 1)]
+    parts = [(cuts[j], cuts[j + 1]) for j in range(k) if cuts[j + 1] > cuts[j]]
+    yy = torch.cat([y, -y]) if stationary else y
 
     class Net(torch.nn.Module):
         def __init__(self):
             super().__init__()
-            self.x = torch.nn.Parameter(torch.randn(n, dtype=torch.float64) * c['scale'])
+            self.x = torch.nn.Parameter(torch.zeros(n, dtype=torch.float64) if stationary else torch.randn(n, dtype=torch.float64) * c['scale'])
 
         def forward(self, inp):
             z = inp @ self.x
-            r = (torch.sin(z) * c['nl'] + z - y).unsqueeze(-1)
-            k = c.get('outs', 1)
+            if stationary:
+                f = torch.cat([z, z])            # residual rows z - y and z + y
+            else:
+                f = torch.sin(z) * c['nl'] + z
+            r = (f if use_target else f - yy).unsqueeze(-1)
             if k == 1:
                 return r
             # several residual tensors (a tuple), as a model with several error terms returns them
-            cuts = [round(j * m / k) for j in range(k + 1)]
-            return tuple(r[cuts[j]:cuts[j + 1]] for j in range(k) if cuts[j + 1] > cuts[j])
+            return tuple(r[lo:hi] for lo, hi in parts)
     net = Net()
+    target = None
+    if use_target:
+        target = yy.unsqueeze(-1) if k == 1 else [yy.unsqueeze(-1)[lo:hi] for lo, hi in parts]
+    kinds = [c['kernel']] * len(parts)
+    if c.get('klist') and k > 1:
+        kinds = [(c['kernel'] + j) % 5 for j in range(len(parts))]       # a list of kernels, one per residual tensor, None included
+    delta = c.get('delta', 0.5 if c['kernel'] == 1 else 1.0)
 
     def own_loss():
-        # the robust loss from its definition (sum over residual tensors and rows of rho(|r_i|^2)), kernels written out here
+        # the robust loss from its definition (sum over residual tensors and rows of rho(|r_i|^2)), kernels written out above
         with torch.no_grad():
             out = net(A)
         outs = out if isinstance(out, tuple) else (out,)
         tot = 0.0
-        for r in outs:
-            x = r.square().sum(-1)
-            if c['kernel'] == 1:
-                x = torch.where(x <= 0.25, x, 2 * 0.5 * x.sqrt() - 0.25)
-            elif c['kernel'] == 2:
-                x = torch.log1p(x)
-            tot += float(x.sum())
+        for j, r in enumerate(outs):
+            if use_target:
+                r = r - (target if k == 1 else target[j])
+            tot += float(doc_kernel(torch, kinds[j], delta, r.square().sum(-1)).sum())
         return tot
-    S = pp.optim.strategy
-    strat = [S.Constant(damping=c['damping']), S.Adaptive(damping=c['damping']), S.TrustRegion(radius=1.0 / c['damping'])][c['strategy']]
-    kern = [None, pp.optim.kernel.Huber(delta=0.5), pp.optim.kernel.Cauchy()][c['kernel']]
-    opt = pp.optim.LM(net, strategy=strat, kernel=kern, reject=c['reject'])
+    S, K = pp.optim.strategy, pp.optim.kernel
+    mk = lambda kd: [None, K.Huber(delta), K.Cauchy(delta), K.PseudoHuber(delta), K.Scale(min(delta, 1.0))][kd]
+    if c['kernel'] == 4 or 4 in kinds:
+        delta = min(delta, 1.0)
+    if c.get('klist') and k > 1:
+        kern = [mk(kd) for kd in kinds]
+    else:
+        kern = mk(c['kernel'])
+    corr = None
+    if c.get('corrector') and kern is not None and not isinstance(kern, list):
+        corr = [None, pp.optim.corrector.FastTriggs(kern), pp.optim.corrector.Triggs(kern)][c['corrector']]
+    hp = c.get('hyper') or {}
+    problems = []
+    if gn:
+        opt = pp.optim.GN(net, kernel=kern, corrector=corr)
+        strat = None
+    else:
+        strat = [S.Constant(damping=c['damping']), S.Adaptive(damping=c['damping'], **{q: v for q, v in hp.items() if q != 'factor'}),
+                 S.TrustRegion(radius=1.0 / c['damping'], **hp)][c['strategy']]
+        opt = pp.optim.LM(net, strategy=strat, kernel=kern, corrector=corr, reject=c['reject'])
     nsolve = [0]
     osolver = opt.solver
 
@@ -482,39 +596,134 @@ def real_one(pp, torch, c):
             return osolver(A, b)
     opt.solver = Cnt()
     prev = own_loss()
-    for k in range(c['calls']):
+    state = dict(prev=prev, call=0)
+    if strat is not None:
+        # observe the calls into the strategy: arguments and the documented transition (Fractions on the float arguments)
+        orig = strat.update
+        high, low = hp.get('high', 0.5), hp.get('low', 1e-3)
+        up, down0, factor = hp.get('up', 2.0), hp.get('down', 0.5), hp.get('factor', 0.5)
+        smin, smax = hp.get('min', 1e-6), hp.get('max', 1e16)
+
+        def spy(pg, last, loss, J, D, R, *args, **kwargs):
+            before = (pg['damping'], pg.get('down'))
+            trial = own_loss()                         # the parameters are at the trial point now
+            orig(pg, last=last, loss=loss, J=J, D=D, R=R, *args, **kwargs)
+            if problems:
+                return
+            last, loss = float(last), float(loss)
+            tol = 1e-9 * max(1.0, abs(state['prev']), abs(trial))
+            if abs(last - state['prev']) > tol or abs(loss - trial) > tol:
+                problems.append('strategy-args: real model call %d: strategy.update was called with last=%r, loss=%r; the loss at the parameters given to the call is %r, at the trial parameters %r'
+                                % (state['call'], last, loss, state['prev'], trial))
+                return
+            if c['strategy'] == 0:
+                if pg['damping'] != before[0]:
+                    problems.append('constant: real model call %d: damping changed from %r to %r' % (state['call'], before[0], pg['damping']))
+                return
+            if bool((D == 0).all()):
+                rho = float('nan')                     # zero step: no actual and no predicted decrease, 0/0
+                stat('real-strategy-update-zero-step-0/0')
+            else:
+                F_ = Fraction
+                Rl = [F_(float(v)) for v in R.reshape(-1)]
+                JD = [sum(F_(float(J[i, j])) * F_(float(D[j, 0])) for j in range(J.shape[1])) for i in range(J.shape[0])]
+                pred = sum(r * r for r in Rl) - sum((r + q) ** 2 for r, q in zip(Rl, JD))      # |f|^2 - |f + J d|^2, exact
+                if pred == 0 or not (abs(last) < 1e200 and abs(loss) < 1e200):
+                    return
+                rho = (last - loss) / float(pred)
+                margin = 1e-9 + 1e-11 * (abs(last) + abs(loss)) / abs(float(pred))
+                if not rho == rho or min(abs(rho - high), abs(rho - low)) <= margin * (1 + abs(rho)):
+                    stat('real-strategy-update-not-judged-near-threshold')
+                    return                             # too close to a threshold to call
+                stat('real-strategy-update-judged-' + ('V' if rho > high else ('S' if rho > low else 'U')))
+            if c['strategy'] == 1:
+                want = before[0] * down0 if rho > high else (before[0] if rho > low else before[0] * up)
+                want = max(smin, min(want, smax))
+                if abs(pg['damping'] - want) > 1e-12 * want:
+                    problems.append('strategy: real model call %d: Adaptive(high=%r, low=%r, up=%r, down=%r, min=%r, max=%r).update with step quality rho=%r (actual decrease %r)%s moved the damping from %r to %r, documented: %r'
+                                    % (state['call'], high, low, up, down0, smin, smax, rho, last - loss, ' [zero step, 0/0]' if rho != rho else '', before[0], pg['damping'], want))
+            else:
+                r0 = 1.0 / before[0]
+                if rho > high:
+                    wr, wd = r0 * up, down0
+                elif rho > low:
+                    wr, wd = r0, down0
+                else:
+                    wr, wd = r0 * before[1], before[1] * factor
+                wr, wd = max(smin, min(wr, smax)), max(smin, min(wd, smax))
+                if abs(pg['radius'] - wr) > 1e-12 * wr or abs(pg['down'] - wd) > 1e-12 * wd or abs(pg['damping'] - 1.0 / wr) > 1e-12 / wr:
+                    problems.append('strategy: real model call %d: TrustRegion(high=%r, low=%r, up=%r, down=%r, factor=%r, min=%r, max=%r).update with step quality rho=%r%s from damping %r, down-factor %r gave radius %r, down-factor %r, damping %r; documented: radius %r, down-factor %r'
+                                    % (state['call'], high, low, up, down0, factor, smin, smax, rho, ' [zero step, 0/0]' if rho != rho else '', before[0], before[1], pg['radius'], pg['down'], pg['damping'], wr, wd))
+        strat.update = spy
+    for kk in range(c['calls']):
+        state['call'] = kk
         x_before = net.x.detach().clone()
         n0 = nsolve[0]
-        with contextlib.redirect_stdout(io.StringIO()):
-            r = float(opt.step(A))
+        try:
+            with contextlib.redirect_stdout(io.StringIO()):
+                r = float(opt.step(A) if target is None else opt.step(A, target))
+        except Raise:
+            # GN lets the solver's exception through: nothing may have changed
+            if not torch.equal(net.x.detach(), x_before):
+                return 'solver-raise: real model %s call %d: the solver raised and the parameters changed' % (c.get('opt', 'lm'), kk)
+            return None
+        if problems:
+            return problems[0]
         true = own_loss()
+        if not (abs(true) < 1e100 and abs(prev) < 1e100):
+            return None                  # diverged (GN on a hard model): nothing left to compare
         tol = 1e-9 * max(1.0, abs(true))
-        if abs(r - true) > tol:
-            return 'true-loss: real model call %d returned %r, loss at the parameters left behind is %r' % (k, r, true)
-        if r > prev + tol and (opt.reject_count != c['reject'] or nsolve[0] - n0 != c['reject'] + 1):
-            return 'monotone: real model call %d returned %r > %r after %d trial(s) in that call (reject_count=%d, reject=%d)' % (k, r, prev, nsolve[0] - n0, opt.reject_count, c['reject'])
-        if nsolve[0] - n0 > c['reject'] + 1:
-            return 'trials: real model call %d made %d solves, reject=%d' % (k, nsolve[0] - n0, c['reject'])
-        if c['raise_at'] is not None and n0 < c['raise_at'] <= nsolve[0] and nsolve[0] == c['raise_at']:
-            # the raise ended the call: parameters as before the failing trial = before the call
-            # (all earlier trials of this call were rejected)
-            if (net.x.detach() - x_before).abs().max() > 1e-9 * (1 + x_before.abs().max()) or abs(r - prev) > tol:
-                return 'solver-raise: real model call %d: parameters / loss changed although the solver raised' % k
-        prev = r
+        if abs(r - true) > tol or abs(float(opt.loss) - true) > tol:
+            return 'true-loss: real model %s call %d returned %r (optimizer.loss %r), loss at the parameters left behind is %r' % (c.get('opt', 'lm'), kk, r, float(opt.loss), true)
+        if abs(float(opt.last) - prev) > 1e-9 * max(1.0, abs(prev)):
+            return 'last: real model %s call %d recorded optimizer.last=%r, the loss at the parameters given to the call is %r' % (c.get('opt', 'lm'), kk, float(opt.last), prev)
+        if not gn:
+            if r > prev + tol and (opt.reject_count != c['reject'] or nsolve[0] - n0 != c['reject'] + 1):
+                return 'monotone: real model call %d returned %r > %r after %d trial(s) in that call (reject_count=%d, reject=%d)' % (kk, r, prev, nsolve[0] - n0, opt.reject_count, c['reject'])
+            if nsolve[0] - n0 > c['reject'] + 1:
+                return 'trials: real model call %d made %d solves, reject=%d' % (kk, nsolve[0] - n0, c['reject'])
+            if c['raise_at'] is not None and n0 < c['raise_at'] <= nsolve[0] and nsolve[0] == c['raise_at']:
+                # the raise ended the call: parameters as before the failing trial = before the call
+                # (all earlier trials of this call were rejected)
+                if (net.x.detach() - x_before).abs().max() > 1e-9 * (1 + x_before.abs().max()) or abs(r - prev) > tol:
+                    return 'solver-raise: real model call %d: parameters / loss changed although the solver raised' % kk
+        prev = true
+        state['prev'] = prev
     return None
+
+
+def gen_hyper(rng):
+    """legal hyper-parameters of Adaptive / TrustRegion; a third of them with the thresholds in unusual order"""
+    if rng.random() < 0.4:
+        return None                      # the defaults
+    h = dict(high=rng.choice([0.5, 0.75, 0.25, 0.9]), low=rng.choice([1e-3, 0.1, 0.2]), up=rng.choice([2.0, 3.0, 5.0]), down=rng.choice([0.5, 0.25, 0.1]),
+             factor=rng.choice([0.5, 0.25]), min=rng.choice([1e-6, 1e-3]), max=rng.choice([1e16, 1e4]))
+    if rng.random() < 0.35:
+        h['high'], h['low'] = rng.choice([(0.5, 2.0), (0.25, 0.25), (1.5, 0.5), (0.1, 0.9), (3.0, 3.0)])
+    return h
 
 
 def real_models(ctx, pp, torch):
     rng = ctx.rng
-    for t in range(ctx.scale(30, 300)):
+    for t in range(ctx.scale(48, 480)):
         c = dict(kind='real', seed=rng.randint(0, 10 ** 6), n=rng.randint(1, 5), m=rng.randint(2, 8), ill=rng.choice([0, 0, 4, 8]),
                  scale=rng.choice([1.0, 10.0]), nl=rng.choice([0.0, 1.0, 3.0]), damping=rng.choice([1e-9, 1e-6, 1e-2, 1.0, 1e3]),
-                 strategy=rng.randrange(3), kernel=rng.randrange(3), reject=rng.choice([0, 1, 2, 16]), calls=rng.choice([3, 10, 30]), outs=rng.choice([1, 1, 2, 3]),
-                 raise_at=rng.choice([None, None, rng.randint(1, 12)]))
-        ctx.case(('real', tuple(sorted(c.items(), key=str))), branch='real-model')
+                 strategy=rng.randrange(3), kernel=rng.randrange(5), delta=rng.choice([0.5, 1.0, 0.3, 2.0]), reject=rng.choice([0, 1, 2, 16]),
+                 calls=rng.choice([1, 3, 10, 30]), outs=rng.choice([1, 1, 2, 3]), raise_at=rng.choice([None, None, rng.randint(1, 12)]),
+                 opt=('gn' if t % 3 == 2 else 'lm'), target=rng.random() < 0.4, klist=rng.random() < 0.4, corrector=rng.choice([0, 0, 1, 2]),
+                 stationary=(t % 3 == 1 and rng.random() < 0.5), hyper=gen_hyper(rng))
+        if c['stationary'] and rng.random() < 0.7:
+            c['kernel'], c['klist'] = 0, False        # without a kernel the trial step at the stationary point is exactly zero
+        if c['opt'] == 'gn':
+            c['calls'] = min(c['calls'], 10)
+            c['ill'] = rng.choice([0, 0, 2])
+        ctx.case(('real', tuple(sorted(c.items(), key=str))), branch='real-model-%s%s' % (c['opt'], '-stationary-start' if c['stationary'] else ''))
         try:
             why = real_one(pp, torch, c)
         except Raise:
             why = None
         if why:
-            ctx.violation('lm-clause:' + why.split(':')[0], why, c)
+            ctx.violation(('gn-clause:' if c['opt'] == 'gn' else 'lm-clause:') + why.split(':')[0], why, c)
+    for q, v in sorted(STATS.items()):
+        ctx.count(q, v)
+    STATS.clear()
